@@ -1,4 +1,4 @@
-CONSTANTS Tables = {"A", "B", "C", "D"}  Cached = {"A", "C"}  Updatable = {"A", "B"}  Bulk = {"A", "B", "C"}  BulkFills = {}  MaxId = 2  MaxRets = 2  MaxDepth = 6  DeepCopy = FALSE
+CONSTANTS Tables = {"A", "B", "C", "D"}  Cached = {"A", "C"}  Updatable = {"A", "B"}  Bulk = {"A", "B", "C"}  BulkFills = {}  MaxId = 2  MaxRets = 2  MaxDepth = 6  DeepCopy = TRUE
 CONSTANT Pops <- PopsSelf
 INIT InitF
 NEXT GenNextF
